@@ -677,7 +677,8 @@ func (p *wat2X64Worker) buildFunc_ins(
 
 		destScopeContex := scopeStack.FindScopeContext(i.X)
 		labelBrNextId := p.makeLabelId(kLabelPrefixName_brNext, destScopeContex.Label, destScopeContex.LabelSuffix)
-		labelBrFallthroughId := p.makeLabelId(kLabelPrefixName_brFallthrough, destScopeContex.Label, destScopeContex.LabelSuffix)
+		// unique per br_if: two conditional branches to the same destination must not share the fall-through label
+		labelBrFallthroughId := p.makeLabelId(kLabelPrefixName_brFallthrough, destScopeContex.Label, destScopeContex.LabelSuffix+"."+p.genNextId())
 
 		// 弹出的是条件
 		sp0 := stk.Pop(token.I32)
